@@ -34,6 +34,8 @@ type scen struct {
 	ReadBuf  int      `json:"readbuf"`  // application read buffer size
 	ReadWait int      `json:"readwait"` // ms the reader stays idle before reading
 	GapMs    int      `json:"gapms"`    // gap between frames for pace "gap" (default 25)
+	Reverse  bool     `json:"reverse"`  // AGWPE_REVERSE_TO_FROM=true in the library's environment (affects the Y query of inbound connections only)
+	Redial   bool     `json:"redial"`   // inbound: after closing, dial the same station again on the same port and receive again
 	Foreign  bool     `json:"foreign"`  // interleave frames for other callsigns / ports
 	Malform  string   `json:"malform"`
 	Reply    string   `json:"reply"` // connect reply: ok, refuse, precondition
@@ -121,6 +123,9 @@ func mechLog(text string, sc scen, payloads [][]byte) []map[string]interface{} {
 
 func runScenario(sc scen, rng *rand.Rand) []rec.Event {
 	res := &result{}
+	if sc.Reverse {
+		os.Setenv("AGWPE_REVERSE_TO_FROM", "true")
+	}
 	// mechanism log: inbound schedules without foreign frames whose reads return whole frames
 	mech := sc.Kind == "inbound" && !sc.Foreign
 	for _, n := range sc.Frames {
@@ -201,7 +206,7 @@ func runScenario(sc scen, rng *rand.Rand) []rec.Event {
 
 	var written []byte
 	closed := false
-	if sc.Kind == "outbound" {
+	if sc.Kind == "outbound" || len(sc.Writes) > 0 {
 		for i, n := range sc.Writes {
 			p := patternPayload(i, n)
 			var k int
@@ -349,6 +354,60 @@ func runScenario(sc scen, rng *rand.Rand) []rec.Event {
 		cls := classifyStream(g, want)
 		res.add(rec.Event{"op": "Reads", "match": cls == "equal", "class": cls, "got": len(g), "want": len(want), "panic": readPanic,
 			"foreign": bytes.Contains(g, []byte("FOREIGN")) || bytes.Contains(g, []byte("UNPROTO"))})
+		if sc.Redial {
+			// a second connection to the same station on the same port: it must receive its own frames, all of them
+			time.Sleep(300 * time.Millisecond)
+			var conn2 net.Conn
+			ctx, cancel := context.WithTimeout(context.Background(), 4*time.Second)
+			pan = guard(func() { conn2, err = tp.DialContext(ctx, sc.Target, sc.Via...) })
+			cancel()
+			res.add(rec.Event{"op": "Api", "call": "Dial(again)", "ok": pan == "" && err == nil && conn2 != nil, "panic": pan, "err": fmt.Sprint(err)})
+			if pan == "" && err == nil && conn2 != nil {
+				var want2, got2 []byte
+				var mu2 sync.Mutex
+				rd2 := make(chan struct{})
+				go func() {
+					defer close(rd2)
+					guard(func() {
+						buf := make([]byte, sc.ReadBuf)
+						for {
+							conn2.SetReadDeadline(time.Now().Add(1200 * time.Millisecond))
+							n, err := conn2.Read(buf)
+							mu2.Lock()
+							got2 = append(got2, buf[:n]...)
+							mu2.Unlock()
+							if err != nil {
+								return
+							}
+						}
+					})
+				}()
+				for i, n := range sc.Frames {
+					p := patternPayload(200+i, n)
+					want2 = append(want2, p...)
+					sim.Send(Frame{Port: sc.Port, Kind: 'D', PID: 0xf0, From: sc.Target, To: sc.MyCall, Data: p}.Encode())
+					time.Sleep(60 * time.Millisecond)
+				}
+				for dl := time.Now().Add(2 * time.Second); time.Now().Before(dl); time.Sleep(20 * time.Millisecond) {
+					mu2.Lock()
+					l := len(got2)
+					mu2.Unlock()
+					if l >= len(want2) {
+						break
+					}
+				}
+				guard(func() { conn2.Close() })
+				select {
+				case <-rd2:
+				case <-time.After(3 * time.Second):
+				}
+				mu2.Lock()
+				g2 := append([]byte(nil), got2...)
+				mu2.Unlock()
+				cls2 := classifyStream(g2, want2)
+				res.add(rec.Event{"op": "Reads", "match": cls2 == "equal", "class": cls2 + "(second connection)", "got": len(g2), "want": len(want2), "panic": "", "foreign": false})
+			}
+		}
 	}
 	if !closed {
 		var cerr error
@@ -438,7 +497,7 @@ func (r *result) tnc(sim *Sim, sc scen, written []byte, connected bool) {
 			payload = append(payload, f.Data...)
 		}
 	}
-	if sc.Kind == "outbound" {
+	if sc.Kind == "outbound" || len(sc.Writes) > 0 {
 		r.add(rec.Event{"op": "TncData", "wellformed": wellformed, "payloadOK": bytes.Equal(payload, written), "got": len(payload), "want": len(written)})
 		r.add(rec.Event{"op": "Exchange", "name": "poll", "seen": has('Y')})
 	}
@@ -606,6 +665,11 @@ func Main(args []string) int {
 	mk(func(s *scen) { s.Kind = "accept"; s.Frames = []int{12, 120} })
 	mk(func(s *scen) { s.Kind = "accept"; s.Frames = []int{12, 120}; s.Foreign = true; s.Segs = []int{30, 6} })
 	mk(func(s *scen) { s.Kind = "accept"; s.Port = 1; s.Frames = []int{77} })
+	mk(func(s *scen) { s.Kind = "accept"; s.Frames = []int{12, 34}; s.Writes = []int{10, 200} })
+	mk(func(s *scen) { s.Kind = "accept"; s.Frames = []int{12, 34}; s.Writes = []int{10, 200}; s.Reverse = true })
+	mk(func(s *scen) { s.Kind = "outbound"; s.Writes = []int{10, 200}; s.Reverse = true })
+	mk(func(s *scen) { s.Kind = "inbound"; s.Frames = []int{4, 4, 5}; s.Redial = true })
+	mk(func(s *scen) { s.Kind = "inbound"; s.Frames = []int{40, 30, 20, 10}; s.Redial = true; s.ReadBuf = 16 })
 	// bursts with an idle reader: inside and far outside the pipeline's capacity
 	mk(func(s *scen) { s.Kind = "inbound"; s.Frames = repeat(16, 3); s.Pace = "burst"; s.ReadWait = 300 })
 	mk(func(s *scen) { s.Kind = "inbound"; s.Frames = repeat(16, 10); s.Pace = "burst"; s.ReadWait = 300 })
